@@ -129,6 +129,13 @@ class Tr:
         return v
 
     def cond(self, e, strict_bool=False):
+        if isinstance(e, ast.Compare) and len(e.ops) > 1:
+            # a <= b <= c  ==  (a <= b) and (b <= c)  (the operands here are side-effect free)
+            parts, left = [], e.left
+            for op, right in zip(e.ops, e.comparators):
+                parts.append(self.cond(ast.Compare(left=left, ops=[op], comparators=[right])))
+                left = right
+            return "(" + " ∧ ".join(parts) + ")"
         if isinstance(e, ast.Compare) and len(e.ops) == 1:
             a, b = self.expr(e.left), self.expr(e.comparators[0])
             ops = {ast.Lt: "<", ast.LtE: "≤", ast.Gt: ">", ast.GtE: "≥", ast.Eq: "=", ast.NotEq: "≠"}
@@ -360,6 +367,38 @@ def main():
         return tr.block(sel, lambda t: t.env["expected_max_varbinds"])
 
     body_def("bulkBound", "(nonRepeaters nOids maxListSize : Int) : Int", bulk_bound_builder, "0")
+
+    def error_index_builder():
+        # PDU.decode_raw: `if <cond on error_index.value and len(varbinds)>: offending_oid = varbinds[error_index.value - 1].oid`
+        fn = func_ast(P.PDU.decode_raw.__func__)
+        for node in ast.walk(fn):
+            def sel(t):
+                return isinstance(t, ast.Assign) and ast.unparse(t.targets[0]) == "offending_oid" and not (isinstance(t.value, ast.Constant) and t.value.value is None)
+
+            if isinstance(node, ast.If) and any(sel(t) for t in node.body):
+                idx = next(t for t in node.body if sel(t))
+                if ast.unparse(idx.value) != "varbinds[error_index.value - 1].oid":
+                    raise Untranslatable("offending OID is no longer varbinds[error_index.value - 1].oid: " + ast.unparse(idx.value))
+                tr = Tr({"error_index.value": "errorIndex", "len(varbinds)": "nVarbinds"})
+                return f"decide {tr.cond(node.test)}"
+        raise Untranslatable("offending-OID selection not found in PDU.decode_raw")
+
+    body_def("errorIndexInRange", "(errorIndex nVarbinds : Int) : Bool", error_index_builder, "false")
+
+    def response_id_builder():
+        import puresnmp.util as U0
+
+        fn = func_ast(U0.validate_response_id)
+        stmts = [s for s in fn.body if not (isinstance(s, ast.Expr) and isinstance(s.value, ast.Constant))]
+        if len(stmts) != 1 or not isinstance(stmts[0], ast.If) or stmts[0].orelse:
+            raise Untranslatable("validate_response_id is no longer a single guarded raise")
+        body = stmts[0].body
+        if len(body) != 1 or not isinstance(body[0], ast.Raise) or "InvalidResponseId" not in ast.unparse(body[0]):
+            raise Untranslatable("validate_response_id does not raise InvalidResponseId under its guard")
+        tr = Tr({"request_id": "requestId", "response_id": "responseId"})
+        return f"decide {tr.cond(stmts[0].test)}"
+
+    body_def("responseIdRefused", "(requestId responseId : Int) : Bool", response_id_builder, "true")
 
     # ---- reflected data --------------------------------------------------------------
     def fact(name, typ, builder, stub):
